@@ -35,7 +35,9 @@ RULE = ("TWIN pipelines (cached / uncached) from the C02 generator (1..4 structu
         "generator with inputs drawn from a 2-element pool, with and without a pipeline cache.  non-trivial = history "
         "with >= 2 calls and >= 1 cached function (map: >= 1 repeated input value); distinct by (pipeline, cache type, "
         "history)")
-ASSUMPTIONS = ["values are strings (structural bodies); user functions are deterministic and do not raise",
+ASSUMPTIONS = ["values are strings (structural bodies) or None: single-output functions named nn* return Python's None (cached, as "
+               "dependency, with full_output, every cache type; call path only - the map path stores 1-tuples and is not "
+               "exercised with None results); user functions are deterministic and do not raise",
                "call histories: non-shared caches, sequential execution; lazy pipelines are not exercised",
                "shared-cache parallel map runs: PROVED at the granularity of atomic cache operations (one read, one write per "
                "invocation, arbitrary actions of other clients in between: C09_map_shared_read/_write); SAMPLED on the real "
@@ -133,6 +135,36 @@ def emit_case(c) -> str:
 
 
 # ------------------------------------------------------------------ implementation driver
+class NoneFunc(pipegen.SymFunc):
+    """A structural function that logs its call like SymFunc but returns Python's None (single output only)."""
+
+    def __call__(self, *args, **kwargs):
+        super().__call__(*args, **kwargs)
+        return None
+
+
+def returns_none(name: str) -> bool:
+    return name.startswith("nn")            # mirrored by Run_C09.returns_none
+
+
+def _build(pd, log=None, **pipeline_kwargs):
+    """pipegen.build, with NoneFunc bodies for the functions whose name starts with 'nn'."""
+    from pipefunc import PipeFunc, Pipeline
+
+    log = ListLog() if log is None else log
+    pfs = []
+    for fd in pd["funcs"]:
+        origs = [o for _, o in fd["params"]]
+        cls = NoneFunc if returns_none(fd["name"]) else pipegen.SymFunc
+        sf = cls(fd["name"], origs, fd["outs"] if len(fd["outs"]) > 1 else None, log, fd["sigd"])
+        renames = {o: c for c, o in fd["params"] if o != c}
+        pf = PipeFunc(sf, output_name=tuple(fd["outs"]) if len(fd["outs"]) > 1 else fd["outs"][0],
+                      renames=renames or None, defaults=dict(fd["defs"]) or None, bound=dict(fd["bound"]) or None,
+                      cache=bool(fd.get("cached", False)))
+        pfs.append(pf)
+    return pipegen.Built(Pipeline(pfs, **pipeline_kwargs), log, pfs)
+
+
 def _uncached(pd):
     q = copy.deepcopy(pd)
     for f in q["funcs"]:
@@ -192,7 +224,7 @@ def _mutate(b, st, cached_twin):
             fd = dict(st["f"])
             if not cached_twin:
                 fd["cached"] = False
-            new = pipegen.build({"funcs": [fd]}, log=b.log).funcs[0]
+            new = _build({"funcs": [fd]}, log=b.log).funcs[0]
             assert isinstance(new, PipeFunc)
             b.pipeline.replace(new)
         else:
@@ -205,11 +237,11 @@ def _mutate(b, st, cached_twin):
 def _run_hist(c):
     modelled = _model_ct(c["cache"])[0] != 3
     try:
-        bu = pipegen.build(_uncached(c["p"]))
+        bu = _build(_uncached(c["p"]))
     except Exception:  # noqa: BLE001
         return ["bad-case"]
     with _CacheDir(c["cache"]) as (ct, ckw):
-        bc = pipegen.build(c["p"], cache_type=ct, cache_kwargs=ckw)
+        bc = _build(c["p"], cache_type=ct, cache_kwargs=ckw)
         out = []
         for st in c["h"]:
             if st["k"] == "call":
@@ -392,7 +424,7 @@ def _gen_mutation(rng, pd, tr):
     for c in names:
         if c not in sigd and rng.random() < 0.12:
             bound[c] = f"B8_{c}"
-    fd = {"name": f"g{tr.nrep}", "outs": list(key), "params": params, "sigd": sigd, "defs": {}, "bound": bound,
+    fd = {"name": ("nn" if len(key) == 1 and rng.random() < 0.25 else "") + f"g{tr.nrep}", "outs": list(key), "params": params, "sigd": sigd, "defs": {}, "bound": bound,
           "cached": rng.random() < 0.6}
     tr.funcs[key] = {"params": names, "bound": set(bound), "explicit": set(), "orig": fd}
     if rng.random() < 0.05:
@@ -442,8 +474,8 @@ def _subsets(n):
 def _gen_map(rng, big=False):
     while True:
         req = mapgen.gen_request(rng, storages=("dict",), allow_internal=False,   # internal axes: C01's subject
-                                 max_size=4 if big else 3)
-        if mapgen.request_size(req) <= (60 if big else 30) and (not big or mapgen.request_size(req) >= 6):
+                                 max_size=3)
+        if mapgen.request_size(req) <= (40 if big else 30) and (not big or mapgen.request_size(req) >= 6):
             break
     req = copy.deepcopy(req)
     for kv in req["inputs"]:
@@ -460,6 +492,9 @@ def generate(rng, tier, mult):
     cases = []
     for _ in range(n_pipes):
         base = pipegen.gen_pipeline(rng, nmax=4)
+        for f in base["funcs"]:                      # some single-output functions return None
+            if len(f["outs"]) == 1 and rng.random() < 0.3:
+                f["name"] = "nn" + f["name"]
         try:
             pl = pipegen.build_cached(base, slot="gen").pipeline
         except Exception:  # noqa: BLE001
@@ -522,6 +557,7 @@ def distribution(c):
             d["step_" + st["k"]] = True
         d["cut"] = any(st["k"] == "call" and any(k in pipegen.outputs_of(c["p"]) for k, _ in st["kw"]) for st in c["h"])
         d["full"] = any(st["k"] == "call" and st["full"] for st in c["h"])
+        d["none_cached"] = any(returns_none(f["name"]) and f.get("cached") for f in c["p"]["funcs"])
         calls = [json.dumps([st["o"], st["kw"], st["full"]]) for st in c["h"] if st["k"] == "call"]
         d["repeated_equal_call"] = len(set(calls)) < len(calls)
     return d
